@@ -61,6 +61,9 @@ def histories(nlen):
     H.append(("seek to the last block with an offset", [("enc", 64), ("seek", hi(top - 1), lo(top - 1), 60), ("enc", 4), ("enc", 4), ("enc", 64)]))
     H.append(("invalid seeks leave the position alone", [("enc", 10), ("seek", 0, 3, 64), ("enc", 10), ("seek", 0, 3, 1000), ("enc", 10)] +
               ([("seek", 1, 0, 0), ("enc", 10)] if nlen == 12 else [])))
+    # a refused seek must not move the block counter either: go on across the next block boundaries afterwards
+    H.append(("a refused seek does not move the counter", [("enc", 70), ("seek", 0, 0, 64), ("enc", 100), ("seek", 0, 9, 200), ("enc", 100)] +
+              ([("seek", 1, 0, 0), ("enc", 130), ("seek", 7, 5, 3), ("enc", 64)] if nlen == 12 else [])))
     return top, H
 
 
